@@ -38,7 +38,13 @@ pub struct Case {
     pub schedule: Vec<u8>,
     /// run the operations one after the other (exact oracle) instead of under the schedule (possibility sets)
     pub sequential: bool,
+    /// status message of (redirector, key keeper, listener) before the history starts: index into STATUS_LENGTHS, odd = multi-byte
+    /// text (a subsystem that is not ready is named with its status message, however long that is)
+    #[serde(default)]
+    pub status_sel: Vec<u8>,
 }
+
+pub const STATUS_LENGTHS: &[usize] = &[0, 40, 500, 900, 990, 1024, 1500, 4000];
 
 pub const CHANNEL_STATES: &[&str] = &["disabled", "Unknown", "wireserver", "WireServer Enforce -  IMDS Audit - HostGA Enforce"];
 
@@ -48,10 +54,10 @@ pub fn strategy() -> impl Strategy<Value = Case> {
         2 => Just(OpKind::ResetKeyLatch), 2 => Just(OpKind::TimeUp), 2 => (0u8..4).prop_map(OpKind::SetChannel),
         4 => Just(OpKind::QueryInternal), 3 => (0u8..5).prop_map(OpKind::QueryHttp),
     ];
-    (prop::collection::vec(op, 2..9), prop::collection::vec(any::<u8>(), 0..120), prop::bool::weighted(0.35)).prop_map(|(ops, schedule, sequential)| Case { ops, schedule, sequential })
+    (prop::collection::vec(op, 2..9), prop::collection::vec(any::<u8>(), 0..120), prop::bool::weighted(0.35), prop_oneof![2 => Just(vec![]), 1 => prop::collection::vec(0u8..16, 3)]).prop_map(|(ops, schedule, sequential, status_sel)| Case { ops, schedule, sequential, status_sel })
 }
 
-pub const RULE: &str = "generator: 2-8 operations on fresh shared state - readiness reports (redirector_ready, key_latched, listener_started), key_latch_ready_state_reset, provision_timeup, update_current_secure_channel_state(disabled | Unknown | a latched state), queries (get_provision_state_internal directly; GET /provision through the real listener with x-ms-azure-time_tick = an ancient instant, the instant the query is created, a far-future instant, 2^63 or the largest 128-bit integer) - run either strictly one after the other (35%) or under a generated schedule of 0-119 steps by the owned-schedule executor. oracle: sequential histories - the reference flag/tick model (DESIGN.md A.4) exactly: finished, and the error text names exactly the subsystems not ready, in order, empty iff all are; scheduled histories - possibility sets from the executor's knowledge of which operations had completed before a query started (definitely) and which had started before it ended (possibly): finished only if all three reports or the deadline or a latched channel state possibly happened (far-future tick: only if latched), a subsystem is omitted from the error text only if a report of it possibly happened and named only if it was not definitely ready. A watcher thread follows the directory with inotify (the entry status.tag may only ever receive MOVED_TO events: CREATE / MODIFY / CLOSE_WRITE under the final name mean it was written in place) and re-reads status.tag continuously: the same inode never shows two different contents (replace-by-rename), every content is empty or complete CRLF-terminated lines with the three known prefixes. non-trivial: >= 2 reports overlap a query or a reset overlaps a report (scheduled), or a sequential history in which finished flips; distinct by hash of the case.";
+pub const RULE: &str = "generator: in a third of the cases the three subsystems start with status messages of 0 / 40 / 500 / 900 / 990 / 1024 / 1500 / 4000 bytes (ASCII or two-byte characters); 2-8 operations on fresh shared state - readiness reports (redirector_ready, key_latched, listener_started), key_latch_ready_state_reset, provision_timeup, update_current_secure_channel_state(disabled | Unknown | a latched state), queries (get_provision_state_internal directly; GET /provision through the real listener with x-ms-azure-time_tick = an ancient instant, the instant the query is created, a far-future instant, 2^63 or the largest 128-bit integer) - run either strictly one after the other (35%) or under a generated schedule of 0-119 steps by the owned-schedule executor. oracle: sequential histories - the reference flag/tick model (DESIGN.md A.4) exactly: finished, and the error text names exactly the subsystems not ready, in order, empty iff all are; scheduled histories - possibility sets from the executor's knowledge of which operations had completed before a query started (definitely) and which had started before it ended (possibly): finished only if all three reports or the deadline or a latched channel state possibly happened (far-future tick: only if latched), a subsystem is omitted from the error text only if a report of it possibly happened and named only if it was not definitely ready. A watcher thread follows the directory with inotify (the entry status.tag may only ever receive MOVED_TO events: CREATE / MODIFY / CLOSE_WRITE under the final name mean it was written in place) and re-reads status.tag continuously: the same inode never shows two different contents (replace-by-rename), every content is empty or complete CRLF-terminated lines with the three known prefixes. non-trivial: >= 2 reports overlap a query or a reset overlaps a report (scheduled), or a sequential history in which finished flips; distinct by hash of the case.";
 
 #[derive(Clone, Debug)]
 pub enum Out {
@@ -225,6 +231,15 @@ pub fn eval(case: &Case, stats: &mut Stats) -> Outcome {
                 tokio::time::sleep(Duration::from_millis(1)).await;
             }
         }
+        if case.status_sel.len() == 3 {
+            use azure_proxy_agent::shared_state::agent_status_wrapper::AgentStatusModule;
+            let ast = shared.get_agent_status_shared_state();
+            for (sel, module) in case.status_sel.iter().zip([AgentStatusModule::Redirector, AgentStatusModule::KeyKeeper, AgentStatusModule::ProxyServer]) {
+                let n = STATUS_LENGTHS[(*sel as usize / 2) % STATUS_LENGTHS.len()];
+                let text = if sel % 2 == 1 { "\u{e9}".repeat(n / 2) } else { "x".repeat(n) };
+                let _ = ast.set_module_status_message(text, module).await;
+            }
+        }
         let mut ops: Vec<sched::Op<Out>> = Vec::new();
         for o in &case.ops {
             let (ct, ks, ts, ps, ast) = (shared.get_cancellation_token(), shared.get_key_keeper_shared_state(), shared.get_telemetry_shared_state(), shared.get_provision_shared_state(), shared.get_agent_status_shared_state());
@@ -266,6 +281,9 @@ pub fn eval(case: &Case, stats: &mut Stats) -> Outcome {
     let latched = |s: &str| s != "disabled" && s != "Unknown";
     let mut nontrivial = false;
     stats.class(if case.sequential { "history:sequential" } else { "history:scheduled" });
+    if case.status_sel.iter().any(|s| STATUS_LENGTHS[(*s as usize / 2) % STATUS_LENGTHS.len()] >= 900) {
+        stats.class("status-message:>=900-bytes");
+    }
 
     // ---------------- sequential: exact reference model ----------------
     if case.sequential {
